@@ -1190,7 +1190,9 @@ func (d *Driver) judgeC06() {
 					for changed := true; changed; {
 						changed = false
 						for _, w := range d.opFaultWindowsFor(in.idx) {
-							if w[0] <= t0+600*time.Millisecond+2*lam && w[1] > t0 {
+							// (a candidate whose goroutines were stalled reaches the store later: a fault
+							// window that opens within its stalled acquisition touches it as well)
+							if w[0] <= t0+600*time.Millisecond+2*lam+d.stallIn(in.idx, t0, t0+time.Second+2*lam) && w[1] > t0 {
 								if w[1] >= 1<<59 {
 									ok = false
 								} else {
